@@ -1,6 +1,6 @@
 //@ unit err_pos
 //@ serves C17
-//@ must_verify Error::new Error::with_pos Error::push_call_stack
+//@ must_verify Error::new Error::with_pos Error::push_call_stack decorate_error_contract decorate_call_contract FromRegex::from FromIo::from FromBuild::from FromConv::from q_regex q_io q_conv
 //@ include prelude/head.rs
 use std::rc::Rc;
 
@@ -69,6 +69,460 @@ impl Position {
             final(self).pos == old(self).pos, final(self).message == old(self).message
 //@   >>>
 //@   mutant push_call_stack_ignored "self.call_stack.push(pos);" => "" expect push_call_stack
+//@ end
+
+
+// decorate_error!(pos => result): an Err gets the position `pos` (REPLACING whatever it carried, see notes/C17.json), call sites kept
+//@ extract src/build/opcode/error.rs :: macro decorate_error
+//@ end
+// decorate_call!(pos => result): an Err gets `pos` appended to its call sites, its own position kept
+//@ extract src/build/opcode/error.rs :: macro decorate_call
+//@ end
+// the two macros under contract, each expanded on an arbitrary result (the macro text is the extracted one)
+pub fn decorate_error_contract(pos: Position, result: Result<u8, Error>) -> (r: Result<u8, Error>)
+    ensures
+        result matches Ok(v) ==> r == Ok::<u8, Error>(v),
+        result matches Err(e) ==> (r matches Err(e2) && e2.pos == Some(pos) && e2.call_stack == e.call_stack && e2.message == e.message),
+{
+    decorate_error!(pos => result)
+}
+pub fn decorate_call_contract(pos: Position, result: Result<u8, Error>) -> (r: Result<u8, Error>)
+    ensures
+        result matches Ok(v) ==> r == Ok::<u8, Error>(v),
+        result matches Err(e) ==> (r matches Err(e2) && e2.pos == e.pos && e2.call_stack@ == e.call_stack@.push(pos) && e2.message == e.message),
+{
+    decorate_call!(pos => result)
+}
+
+// ---------- the `From` impls: where an error of another layer becomes an opcode::Error ----------
+// regex::Error, std::io::Error, convert::Error have NO position: the converted error has none (the raiser must add one);
+// a BuildError (parser / type checker) keeps the position it has.  The foreign error types are opaque stand-ins.
+#[verifier::external_body]
+pub struct VRegexError { _p: u8 }
+#[verifier::external_body]
+pub struct VIoError { _p: u8 }
+pub mod io { pub enum ErrorKind { NotFound, Other, Rest } }
+impl VIoError {
+    #[verifier::external_body]
+    pub fn kind(&self) -> io::ErrorKind { unimplemented!() }
+}
+#[verifier::external_body]
+pub struct ConvError { _p: u8 }
+impl ConvError {
+    #[verifier::external_body]
+    pub fn message(&self) -> String { unimplemented!() }
+}
+#[verifier::external_body]
+pub struct VErrorType { _p: u8 }
+// crate::error::BuildError: the three fields the conversion reads (the fourth, `cause: Option<Box<dyn Error>>`, is not read)
+pub struct BuildError { pub err_type: VErrorType, pub pos: Option<Position>, pub msg: String }
+
+// what each conversion must do to (pos, call_stack)
+pub open spec fn unpositioned(e: Error) -> bool { e.pos is None && e.call_stack@.len() == 0 }
+// The `From` impls are placed in inherent impls of marker types (Verus gives `?` / `.into()` no contract of a local
+// trait impl); the bodies are the extracted ones.
+pub struct FromRegex {}
+pub struct FromIo {}
+pub struct FromBuild {}
+pub struct FromConv {}
+//@ extract src/build/opcode/error.rs :: impl From<regex::Error> for Error :: fn from
+//@   impl_header impl FromRegex
+//@   rule R1
+//@   subst "fn from(e: regex::Error) -> Self" => "pub fn from(e: VRegexError) -> Error"
+//@   ret r
+//@   sig <<<
+        ensures unpositioned(r)
+//@   >>>
+//@ end
+//@ extract src/build/opcode/error.rs :: impl From<std::io::Error> for Error :: fn from
+//@   impl_header impl FromIo
+//@   rule R1
+//@   subst "fn from(e: std::io::Error) -> Self" => "pub fn from(e: VIoError) -> Error"
+// (R1 turned both `format!(..)` arms into the Rc<str> stub: the trailing String -> Rc<str> `.into()` goes with them)
+//@   subst "} .into();" => "};"
+//@   ret r
+//@   sig <<<
+        ensures unpositioned(r)
+//@   >>>
+//@ end
+//@ extract src/build/opcode/error.rs :: impl From<crate::error::BuildError> for Error :: fn from
+//@   impl_header impl FromBuild
+//@   rule R1
+//@   subst "fn from(e: crate::error::BuildError) -> Self" => "pub fn from(e: BuildError) -> Error"
+//@   ret r
+//@   sig <<<
+        // a parser / type checker diagnostic keeps its position
+        ensures r.pos == e.pos, r.call_stack@.len() == 0
+//@   >>>
+//@   mutant from_build_error_drops_pos "pos: e.pos," => "pos: None," expect from
+//@ end
+//@ extract src/build/opcode/error.rs :: impl From<convert::Error> for Error :: fn from
+//@   impl_header impl FromConv
+//@   subst "fn from(e: convert::Error) -> Self" => "pub fn from(e: ConvError) -> Error"
+//@   ret r
+//@   sig <<<
+        ensures unpositioned(r)
+//@   >>>
+//@ end
+// `x?` on a Result whose error type is not opcode::Error: std desugars it to
+// `match x { Ok(v) => v, Err(e) => return Err(From::from(e)) }`; the From impl is the extracted one (R7).
+pub fn q_regex<T>(x: Result<T, VRegexError>) -> (r: Result<T, Error>)
+    ensures x matches Ok(v) ==> r == Ok::<T, Error>(v), x is Err ==> (r matches Err(e) && unpositioned(e))
+{ match x { Ok(v) => Ok(v), Err(e) => Err(FromRegex::from(e)) } }
+pub fn q_io<T>(x: Result<T, VIoError>) -> (r: Result<T, Error>)
+    ensures x matches Ok(v) ==> r == Ok::<T, Error>(v), x is Err ==> (r matches Err(e) && unpositioned(e))
+{ match x { Ok(v) => Ok(v), Err(e) => Err(FromIo::from(e)) } }
+pub fn q_conv<T>(x: Result<T, ConvError>) -> (r: Result<T, Error>)
+    ensures x matches Ok(v) ==> r == Ok::<T, Error>(v), x is Err ==> (r matches Err(e) && unpositioned(e))
+{ match x { Ok(v) => Ok(v), Err(e) => Err(FromConv::from(e)) } }
+
+
+// =====================================================================================================================
+// 2. pointer.rs / vm.rs: every error a handler raises carries a position of the failing op or of one of its operands
+// =====================================================================================================================
+impl Value {
+    // only used to build messages and to compare type names here (R1/R8; proved in unit vm_data)
+    #[verifier::external_body]
+    fn type_name(&self) -> &'static str { unimplemented!() }
+    // `impl PartialEq for Value` (proved in unit vm_data): its outcome does not matter to positions
+    #[verifier::external_body]
+    fn eq(&self, other: &Value) -> bool { unimplemented!() }
+}
+//@ extract src/build/opcode/translate.rs :: impl OpsMap :: fn len
+//@   ret r
+//@   sig <<<
+        ensures r == self.ops@.len()
+//@   >>>
+//@ end
+//@ extract src/build/opcode/vm.rs :: struct VM
+//@   rule R0 RV
+//@   subst "working_dir: PathBuf" => "working_dir: VPathBuf"
+//@   subst "runtime: runtime::Builtins" => "runtime: Builtins"
+//@   subst "reserved_words: &'static BTreeSet<&'static str>" => "reserved_words: ReservedWords"
+//@ end
+
+// ---------- vocabulary ----------
+// a freshly raised error: it carries exactly this position and no call sites
+pub open spec fn raised_at(e: Error, p: Position) -> bool { e.pos == Some(p) && e.call_stack@.len() == 0 }
+// the k-th entry from the top of the value stack (1 = top) and the position it was pushed with
+pub open spec fn opnd(vm: VM, k: int) -> Value { *vm.stack@[vm.stack@.len() - k].0 }
+pub open spec fn opnd_pos(vm: VM, k: int) -> Position { vm.stack@[vm.stack@.len() - k].1 }
+// interpreter-loop invariant (proved in unit err_pos_run): a handler runs while the instruction pointer is at an op
+// that has a position; `cur_pos` is the position stored with that op
+pub open spec fn at_op(p: OpPointer) -> bool {
+    p.ptr matches Some(i) && i < p.pos_map.ops@.len() && p.pos_map.pos@.len() == p.pos_map.ops@.len()
+}
+pub open spec fn cur_pos(p: OpPointer) -> Position { p.pos_map.pos@[p.ptr->0 as int] }
+// nothing but the value stack and the `last` debugging slot changes
+pub open spec fn frame(a: VM, b: VM) -> bool {
+    a.symbols == b.symbols && a.self_stack == b.self_stack && a.ops == b.ops && a.import_stack == b.import_stack
+    && a.working_dir == b.working_dir && a.runtime == b.runtime && a.reserved_words == b.reserved_words
+}
+// ... and the instruction pointer, inside the same program
+pub open spec fn frame_jump(a: VM, b: VM) -> bool {
+    a.symbols == b.symbols && a.self_stack == b.self_stack && a.import_stack == b.import_stack
+    && a.working_dir == b.working_dir && a.runtime == b.runtime && a.reserved_words == b.reserved_words
+    && a.ops.pos_map == b.ops.pos_map && a.ops.path == b.ops.path
+}
+// the value pushed by a handler carries position p
+pub open spec fn pushed_at(b: VM, p: Position) -> bool { b.stack@.len() > 0 && b.stack@.last().1 == p }
+
+//@ extract src/build/opcode/pointer.rs :: impl OpPointer :: fn pos
+//@   ret r
+//@   sig <<<
+        ensures
+            (self.ptr matches Some(i) && i < self.pos_map.pos@.len()) ==> r == Some(&self.pos_map.pos@[self.ptr->0 as int]),
+            (self.ptr is None || self.ptr->0 >= self.pos_map.pos@.len()) ==> r is None,
+//@   >>>
+//@ end
+// a jump out of the program is an internal fault of the translator; even so it is reported at the op that jumps
+//@ extract src/build/opcode/pointer.rs :: impl OpPointer :: fn jump
+//@   subst all ".into()" => ".v_into()"
+//@   ret r
+//@   sig <<<
+        ensures
+            final(self).pos_map == old(self).pos_map, final(self).path == old(self).path,
+            r is Ok ==> final(self).ptr == Some(ptr) && ptr < old(self).pos_map.ops@.len(),
+            r is Err ==> final(self).ptr == old(self).ptr,
+            at_op(*old(self)) ==> (r matches Err(e) ==> raised_at(e, cur_pos(*old(self)))),
+//@   >>>
+//@   mutant jump_fault_at_default_position "Some(pos) => pos.clone()," => "Some(pos) => Position::new(0, 0, 0)," expect jump
+//@ end
+//@ extract src/build/opcode/pointer.rs :: impl OpPointer :: fn idx
+//@   subst all ".into()" => ".v_into()"
+//@   ret r
+//@   sig <<<
+        // (the Err arm reports Position::new(0, 0, 0): unreachable from the interpreter loop, which only asks at an op)
+        ensures self.ptr matches Some(i) ==> r == Ok::<usize, Error>(i),
+//@   >>>
+//@ end
+
+//@ extract src/build/opcode/vm.rs :: impl VM :: fn push
+//@   ret r
+//@   sig <<<
+        ensures r is Ok, final(self).stack@ == old(self).stack@.push((val, pos)),
+            frame(*old(self), *final(self)),
+//@   >>>
+//@ end
+//@ extract src/build/opcode/vm.rs :: impl VM :: fn pop
+//@   subst "Some(v.clone())" => "Some((v.0.clone(), v.1.clone()))"
+//@   ret r
+//@   sig <<<
+        requires old(self).stack@.len() > 0
+        ensures r is Ok, r->Ok_0 == old(self).stack@.last(), final(self).stack@ == old(self).stack@.drop_last(),
+            frame(*old(self), *final(self)),
+//@   >>>
+//@ end
+
+// ---------- arithmetic: the error is at the RIGHT operand (second from the top), the result at the operator ----------
+//@ extract src/build/opcode/vm.rs :: impl VM :: fn mul
+//@   rule R1 R6(*f,*ff)
+//@   ret r
+//@   sig <<<
+        ensures r matches Err(e) ==> raised_at(e, *pos)
+//@   >>>
+//@ end
+//@ extract src/build/opcode/vm.rs :: impl VM :: fn div
+//@   rule R1 R6(*f,*ff)
+//@   ret r
+//@   sig <<<
+        ensures r matches Err(e) ==> raised_at(e, *pos)
+//@   >>>
+//@   mutant div_by_zero_at_default_position "None => { return Err(Error::new( verif_msg(), pos.clone(), )) }" => "None => { return Err(Error::new( verif_msg(), Position::new(0, 0, 0), )) }" expect div
+//@ end
+//@ extract src/build/opcode/vm.rs :: impl VM :: fn sub
+//@   rule R1 R6(*f,*ff)
+//@   ret r
+//@   sig <<<
+        ensures r matches Err(e) ==> raised_at(e, *pos)
+//@   >>>
+//@ end
+//@ extract src/build/opcode/vm.rs :: impl VM :: fn modulus
+//@   rule R1 R6(*f,*ff)
+//@   ret r
+//@   sig <<<
+        ensures r matches Err(e) ==> raised_at(e, *pos)
+//@   >>>
+//@ end
+//@ extract src/build/opcode/vm.rs :: impl VM :: fn add
+//@   rule R1 R6(*f,*ff)
+//@   subst "P(Str(ns.into()))" => "P(Str(verif_string_into_rcstr(ns)))"
+//@   ret r
+//@   sig <<<
+        requires
+            // representation invariant of list values: one position per element
+            (*left matches C(List(a, ap)) ==> a@.len() <= ap@.len()),
+            (*right matches C(List(b, bp)) ==> b@.len() <= bp@.len()),
+            // two lists held in memory have fewer than 2^64 elements together
+            (*left matches C(List(a, ap)) ==> (*right matches C(List(b, bp)) ==> a@.len() + b@.len() <= usize::MAX)),
+        ensures r matches Err(e) ==> raised_at(e, *pos)
+//@   >>>
+//@   loop 1 iter it <<<
+                    invariant
+                        it.seq().len() == left_list@.len(), counter == it.index,
+                        left_list@.len() <= left_pos_list@.len(), left_list@.len() <= usize::MAX,
+//@   >>>
+//@   loop 2 iter it <<<
+                    invariant
+                        it.seq().len() == right_list@.len(), counter == it.index,
+                        right_list@.len() <= right_pos_list@.len(), right_list@.len() <= usize::MAX,
+//@   >>>
+//@ end
+pub open spec fn binop_pos(a: VM, b: VM, pos: Position, r: Result<(), Error>) -> bool {
+    &&& frame(a, b)
+    &&& (r matches Err(e) ==> raised_at(e, opnd_pos(a, 2)))
+    &&& (r is Ok ==> pushed_at(b, pos))
+}
+//@ extract src/build/opcode/vm.rs :: impl VM :: fn op_mod
+//@   ret r
+//@   sig <<<
+        requires old(self).stack@.len() >= 2
+        ensures binop_pos(*old(self), *final(self), pos, r)
+//@   >>>
+//@ end
+//@ extract src/build/opcode/vm.rs :: impl VM :: fn op_sub
+//@   ret r
+//@   sig <<<
+        requires old(self).stack@.len() >= 2
+        ensures binop_pos(*old(self), *final(self), pos, r)
+//@   >>>
+//@ end
+//@ extract src/build/opcode/vm.rs :: impl VM :: fn op_mul
+//@   ret r
+//@   sig <<<
+        requires old(self).stack@.len() >= 2
+        ensures binop_pos(*old(self), *final(self), pos, r)
+//@   >>>
+//@ end
+//@ extract src/build/opcode/vm.rs :: impl VM :: fn op_div
+//@   ret r
+//@   sig <<<
+        requires old(self).stack@.len() >= 2
+        ensures binop_pos(*old(self), *final(self), pos, r)
+//@   >>>
+// the position of the operator's own result handed to the error instead of an operand's: still inside the statement,
+// but not what the source says - rejected because the contract pins the operand
+//@   mutant div_error_at_unpopped_operand "let (right, right_pos) = self.pop()?; self.push(Rc::new(P(self.div(&left, &right, &right_pos)?)), pos)?;" => "let (right, right_pos) = self.pop()?; let wrong = match self.stack.last() { Some(x) => x.1.clone(), None => right_pos.clone() }; self.push(Rc::new(P(self.div(&left, &right, &wrong)?)), pos)?;" expect op_div
+//@ end
+//@ extract src/build/opcode/vm.rs :: impl VM :: fn op_add
+//@   ret r
+//@   sig <<<
+        requires old(self).stack@.len() >= 2,
+            ({ let n = old(self).stack@.len() as int;
+               (*old(self).stack@[n - 1].0 matches C(List(a, ap)) ==> a@.len() <= ap@.len())
+               && (*old(self).stack@[n - 2].0 matches C(List(b, bp)) ==> b@.len() <= bp@.len())
+               && (*old(self).stack@[n - 1].0 matches C(List(a, ap)) ==> (*old(self).stack@[n - 2].0 matches C(List(b, bp)) ==> a@.len() + b@.len() <= usize::MAX)) }),
+        ensures binop_pos(*old(self), *final(self), pos, r)
+//@   >>>
+//@ end
+
+
+// ---------- comparisons and `==`: a type mismatch is reported at the operator ----------
+pub open spec fn cmp_pos(a: VM, b: VM, pos: Position, r: Result<(), Error>) -> bool {
+    &&& frame(a, b)
+    &&& (r matches Err(e) ==> raised_at(e, pos))
+    &&& (r is Ok ==> pushed_at(b, pos))
+}
+//@ extract src/build/opcode/vm.rs :: impl VM :: fn op_gt
+//@   rule R1 R3 R6(*f,*ff)
+//@   ret r
+//@   sig <<<
+        requires old(self).stack@.len() >= 2
+        ensures cmp_pos(*old(self), *final(self), *pos, r)
+//@   >>>
+//@ end
+//@ extract src/build/opcode/vm.rs :: impl VM :: fn op_lt
+//@   rule R1 R3 R6(*f,*ff)
+//@   ret r
+//@   sig <<<
+        requires old(self).stack@.len() >= 2
+        ensures cmp_pos(*old(self), *final(self), *pos, r)
+//@   >>>
+//@ end
+//@ extract src/build/opcode/vm.rs :: impl VM :: fn op_gteq
+//@   rule R1 R3 R6(*f,*ff)
+//@   ret r
+//@   sig <<<
+        requires old(self).stack@.len() >= 2
+        ensures cmp_pos(*old(self), *final(self), pos, r)
+//@   >>>
+//@ end
+//@ extract src/build/opcode/vm.rs :: impl VM :: fn op_lteq
+//@   rule R1 R3 R6(*f,*ff)
+//@   ret r
+//@   sig <<<
+        requires old(self).stack@.len() >= 2
+        ensures cmp_pos(*old(self), *final(self), pos, r)
+//@   >>>
+//@ end
+//@ extract src/build/opcode/vm.rs :: impl VM :: fn op_equal
+//@   rule R1
+//@   subst? "left == right" => "left.as_ref().eq(right.as_ref())"
+//@   subst? "right == left" => "right.as_ref().eq(left.as_ref())"
+//@   ret r
+//@   sig <<<
+        requires old(self).stack@.len() >= 2
+        ensures cmp_pos(*old(self), *final(self), pos, r)
+//@   >>>
+//@ end
+// `not e`: the operand is at fault, and the result stands where the operand stood
+//@ extract src/build/opcode/vm.rs :: impl VM :: fn op_not
+//@   rule R1 R3
+//@   ret r
+//@   sig <<<
+        requires old(self).stack@.len() >= 1
+        ensures frame(*old(self), *final(self)),
+            r matches Err(e) ==> raised_at(e, opnd_pos(*old(self), 1)),
+            r is Ok ==> pushed_at(*final(self), opnd_pos(*old(self), 1)),
+//@   >>>
+//@   mutant not_error_without_operand_position "operand_pos, ))" => "Position::new(0, 0, 0), ))" expect op_not
+//@ end
+
+// ---------- control flow: a condition that is not a boolean is reported at the condition ----------
+//@ extract src/build/opcode/vm.rs :: impl VM :: fn op_jump
+//@   subst ".map(|v| (v as i32 + jp) as usize)" => ".map(|v: usize| -> (t: usize) requires v <= i32::MAX && 0 <= v + jp <= i32::MAX ensures t == v + jp { (v as i32 + jp) as usize })"
+//@   ret r
+//@   sig <<<
+        requires at_op(old(self).ops),
+            // translator invariant (caller obligation): programs are shorter than 2^31 ops, jumps stay inside
+            old(self).ops.ptr->0 <= i32::MAX, 0 <= old(self).ops.ptr->0 + jp <= i32::MAX,
+        ensures frame_jump(*old(self), *final(self)), final(self).stack == old(self).stack, at_op(final(self).ops),
+            r matches Err(e) ==> raised_at(e, cur_pos(old(self).ops)),
+//@   >>>
+//@ end
+pub open spec fn jump_pre(vm: VM, jp: i32) -> bool {
+    at_op(vm.ops) && vm.ops.ptr->0 <= i32::MAX && 0 <= vm.ops.ptr->0 + jp <= i32::MAX
+}
+pub open spec fn is_bool(v: Value) -> bool { v matches P(p) && p is Bool }
+// the condition on top of the stack decides; if it is no boolean the error is at the condition, otherwise only the jump
+// can fail (internal fault: reported at the jumping op)
+pub open spec fn cond_pos(a: VM, b: VM, r: Result<(), Error>) -> bool {
+    &&& frame_jump(a, b) && at_op(b.ops)
+    &&& (r matches Err(e) ==> raised_at(e, if is_bool(opnd(a, 1)) { cur_pos(a.ops) } else { opnd_pos(a, 1) }))
+}
+//@ extract src/build/opcode/vm.rs :: impl VM :: fn op_and
+//@   rule R1 R3
+//@   ret r
+//@   sig <<<
+        requires old(self).stack@.len() >= 1, jump_pre(*old(self), jp)
+        ensures cond_pos(*old(self), *final(self), r)
+//@   >>>
+// (`pos`, the operator's position, is only printed in the message: pointing the error at it instead would still be
+// inside the statement; the contract pins what the source does - the condition)
+//@   mutant and_error_at_operator "cond_pos.clone(), ));" => "pos, ));" expect op_and
+//@ end
+//@ extract src/build/opcode/vm.rs :: impl VM :: fn op_or
+//@   rule R1 R3
+//@   subst "if cond {" => "if *cond {"
+//@   ret r
+//@   sig <<<
+        requires old(self).stack@.len() >= 1, jump_pre(*old(self), jp)
+        ensures cond_pos(*old(self), *final(self), r)
+//@   >>>
+//@ end
+//@ extract src/build/opcode/vm.rs :: impl VM :: fn op_jump_if_true
+//@   rule R1 R3
+//@   subst "if cond {" => "if *cond {"
+//@   ret r
+//@   sig <<<
+        requires old(self).stack@.len() >= 1, jump_pre(*old(self), jp)
+        ensures cond_pos(*old(self), *final(self), r)
+//@   >>>
+//@ end
+//@ extract src/build/opcode/vm.rs :: impl VM :: fn op_jump_if_false
+//@   rule R1 R3
+//@   ret r
+//@   sig <<<
+        requires old(self).stack@.len() >= 1, jump_pre(*old(self), jp)
+        ensures cond_pos(*old(self), *final(self), r)
+//@   >>>
+//@   mutant jif_error_at_default_position "pos.clone(), ));" => "Position::new(0, 0, 0), ));" expect op_jump_if_false
+//@ end
+// select: comparing an arm's name with the searched value never fails by itself (an unhandled case is a `fail`
+// compiled into the default arm, see op_bang); the searched value goes back with the position it had
+//@ extract src/build/opcode/vm.rs :: impl VM :: fn op_select_jump
+//@   rule R3
+//@   subst "fname == sname" => "verif_rcstr_eq(fname, sname)"
+//@   subst "== \"true\" && b" => "== \"true\" && *b"
+//@   ret r
+//@   sig <<<
+        requires old(self).stack@.len() >= 2, jump_pre(*old(self), jp)
+        ensures frame_jump(*old(self), *final(self)), at_op(final(self).ops),
+            r matches Err(e) ==> raised_at(e, cur_pos(old(self).ops)),
+            final(self).stack@.len() == old(self).stack@.len() - 1 ==> pushed_at(*final(self), opnd_pos(*old(self), 2)),
+//@   >>>
+//@ end
+// `fail`: the user's message, at the position of the message expression
+//@ extract src/build/opcode/vm.rs :: impl VM :: fn op_bang
+//@   rule R3
+//@   ret r
+//@   sig <<<
+        // translator invariant: `fail e` compiles to  e ; "UserDefined: " ; Add ; Bang: the top of the stack is a string
+        requires old(self).stack@.len() >= 1, opnd(*old(self), 1) is P, opnd(*old(self), 1)->P_0 is Str,
+        ensures frame(*old(self), *final(self)),
+            r matches Err(e) && raised_at(e, opnd_pos(*old(self), 1)) && e.message == opnd(*old(self), 1)->P_0->Str_0,
+//@   >>>
+//@   mutant fail_at_default_position "Error::new(msg.clone(), err_pos)" => "Error::new(msg.clone(), Position::new(0, 0, 0))" expect op_bang
 //@ end
 
 } // verus!
